@@ -45,7 +45,8 @@ from hypothesis import strategies as st  # noqa: E402
 from vf.core import require, Skip  # noqa: E402
 from vf import mps as M  # noqa: E402
 
-NET_OPS = ['get_theta1', 'get_theta2', 'get_B_copy', 'make_U_I', 'make_U_II', 'measure', 'copy_mutate', 'apply_naively', 'constructor', 'add_dagger', 'env']
+NET_OPS = ['get_theta1', 'get_theta2', 'get_B_copy', 'make_U_I', 'make_U_II', 'measure', 'copy_mutate', 'apply_naively', 'constructor', 'add_dagger', 'env',
+           'segment_env']
 
 
 @st.composite
@@ -61,7 +62,8 @@ def network_specs(draw, tier):
 def fingerprint_psi(psi):
     return {'B': [(b.to_ndarray().copy(), tuple(b.get_leg_labels()), tuple(b.qtotal), len(b._data), b._qdata.shape) for b in psi._B],
             'S': [np.array(s, copy=True) for s in psi._S], 'form': list(psi.form), 'norm': psi.norm, 'legs': [[id(l) for l in b.legs] for b in psi._B],
-            'legdata': [[(l.slices.copy(), l.charges.copy(), l.qconj) for l in b.legs] for b in psi._B]}
+            'legdata': [[(l.slices.copy(), l.charges.copy(), l.qconj) for l in b.legs] for b in psi._B],
+            'boundaries': [None if b is None else (b.to_ndarray().copy(), tuple(b.get_leg_labels()), tuple(b.qtotal)) for b in getattr(psi, 'segment_boundaries', (None, None))]}
 
 
 def fingerprint_mpo(H):
@@ -184,6 +186,30 @@ def run_network(spec):
                 mutate(LP, how, rng)
                 env2 = MPSEnvironment(psi, psi)
                 mutate(env2.get_RP(i), how, rng)
+            elif op == 'segment_env':
+                # segment states (one of them with non-trivial segment_boundaries) as operands of environments / overlaps
+                first = min(i, L - 3)
+                last = first + 1 + (how % (L - 1 - first))
+                seg = psi.extract_segment(first, last)
+                ket = seg.copy()
+                ket.apply_local_op(how % ket.L, 'Sigmaz', unitary=False)
+                if how % 2:
+                    ket.canonical_form()
+                tags['boundaries'] = [b is not None for b in ket.segment_boundaries]
+                fp_seg, fp_ket = fingerprint_psi(seg), fingerprint_psi(ket)
+                for bra_, ket_ in [(seg, ket), (ket, seg), (ket, ket), (seg, ket)]:
+                    env = MPSEnvironment(bra_, ket_)
+                    env.get_RP(0)
+                    env.get_LP(seg.L - 1)
+                    env.full_contraction(0)
+                    bra_.overlap(ket_)
+                    require(same_fp(fingerprint_psi(ket), fp_ket) and same_fp(fingerprint_psi(seg), fp_seg), 'segment-operand-changed',
+                            'a segment MPS (segment_boundaries of the second one: %r) changed by building an environment / overlap' % (tags['boundaries'],), **tags)
+                require(same_fp(fingerprint_psi(seg), fp_seg), 'segment-operand-changed', 'the segment MPS without boundaries changed by building environments / overlaps', **tags)
+                require(same_fp(fingerprint_psi(ket), fp_ket), 'segment-operand-changed', 'the segment MPS (segment_boundaries %r) changed by building environments / overlaps'
+                        % (tags['boundaries'],), **tags)
+                seg.test_sanity()
+                ket.test_sanity()
             classes.append('op:' + op)
             new_psi, new_H = fingerprint_psi(psi), fingerprint_mpo(H)
             require(same_fp(new_psi, fp_psi), 'mps-operand-changed', 'after %s(i=%d, how=%d) the MPS (forms %r) changed although only the returned object was modified' % (op, i, how, fp_psi['form']), **tags)
